@@ -89,7 +89,7 @@ func (S) Info() scen.Info {
 			"reference model":      "abstract tree with expanded links + reference updater (replace / insert / delete / append / create-parents / transparent link crossing)",
 		},
 		QuickUnits: 50000, ThoroughUnits: 3000000, QuickSecs: 240, ThoroughSecs: 1200,
-		ProbeKeys: []string{"probe.link_system_with_node_reifier", "probe.read_back_through_get_and_focus", "probe.walk_transform_across_links", "probe.walk_transform_loader_skips", "probe.walk_transform_visit_once", "probe.chooser_map_prototype", "probe.below_link", "probe.below_two_links", "probe.delete_map", "probe.insert_key", "probe.append", "probe.create_parents", "probe.identity", "probe.expected_error", "probe.typed_transform", "probe.replacement_from_other_implementation", "probe.selector_reused", "probe.float_zero_sign_flipped_below_link", "probe.walk_transform", "probe.walk_transform_selector_matched", "probe.int_backed_segment", "probe.fault_made_transform_fail", "probe.fault_survived", "probe.history_ge_3"},
+		ProbeKeys: []string{"probe.walk_transform_selector_across_links", "probe.walk_transform_selector_visit_once", "probe.link_system_with_node_reifier", "probe.read_back_through_get_and_focus", "probe.walk_transform_across_links", "probe.walk_transform_loader_skips", "probe.walk_transform_visit_once", "probe.chooser_map_prototype", "probe.below_link", "probe.below_two_links", "probe.delete_map", "probe.insert_key", "probe.append", "probe.create_parents", "probe.identity", "probe.expected_error", "probe.typed_transform", "probe.replacement_from_other_implementation", "probe.selector_reused", "probe.float_zero_sign_flipped_below_link", "probe.walk_transform", "probe.walk_transform_selector_matched", "probe.int_backed_segment", "probe.fault_made_transform_fail", "probe.fault_survived", "probe.history_ge_3"},
 		EventsKey: "events",
 	}
 }
@@ -204,6 +204,53 @@ func noSlashKeys(v *model.V) {
 	for _, x := range v.Vals {
 		noSlashKeys(x)
 	}
+}
+
+// redirectAt: is the position, in the expanded tree, a link whose block's root is itself a link
+// (a redirect block)? A walk that crosses the first link is handed that root, a link node.
+func redirectAt(e *model.V, segs []string) bool {
+	cur := e
+	for _, sg := range segs {
+		for cur != nil && cur.K == model.Link && len(cur.Vals) == 1 {
+			cur = cur.Vals[0]
+		}
+		if cur == nil {
+			return false
+		}
+		switch cur.K {
+		case model.Map:
+			cur = cur.Get(sg)
+		case model.List:
+			ix, err := strconv.Atoi(sg)
+			if err != nil || ix < 0 || ix >= len(cur.Vals) {
+				return false
+			}
+			cur = cur.Vals[ix]
+		default:
+			return false
+		}
+	}
+	return cur != nil && cur.K == model.Link && len(cur.Vals) == 1 && cur.Vals[0].K == model.Link
+}
+
+// hasExplicitInterests: does a selector spec (as data) contain a fields, index or range clause?
+func hasExplicitInterests(v *model.V) bool {
+	if v == nil {
+		return false
+	}
+	if v.K == model.Map {
+		for _, k := range v.Keys {
+			if k == "f" || k == "i" || k == "r" {
+				return true
+			}
+		}
+	}
+	for _, x := range v.Vals {
+		if hasExplicitInterests(x) {
+			return true
+		}
+	}
+	return false
 }
 
 // flatten replaces every loaded link of an expanded tree by its content (dangling links stay).
@@ -635,6 +682,7 @@ func (S) RunTape(t *sim.Tape, st *sim.Stats, keepLog bool) *sim.Outcome {
 		noJSON  bool                // no dag-json block in the graph (dag-json cannot carry a float zero's sign: C04's matter)
 		sels    []selector.Selector // compiled selectors of earlier steps, re-used later (a compiled selector is immutable)
 		selDesc []string
+		selExpl []bool // the selector has clauses with explicit interests (fields, index, range)
 	}
 	cls := make([]*client, ncl)
 	for c := range cls {
@@ -815,8 +863,12 @@ func (S) RunTape(t *sim.Tape, st *sim.Stats, keepLog bool) *sim.Outcome {
 					ok = found
 					segs = append(append([]string(nil), p.segs...), "np1", "leaf")
 					act.repl = repl()
-				case 7, 9:
+				case 7:
 					ok = !hasLinks(strip(cl.exp))
+				case 9:
+					// on link-free roots always; on roots with links (judged on content, links replaced by
+					// their blocks) only without storage faults
+					ok = !hasLinks(strip(cl.exp)) || !w.faulty
 				case 10:
 					ok = hasLinks(strip(cl.exp)) && !w.faulty
 				}
@@ -888,9 +940,10 @@ func (S) RunTape(t *sim.Tape, st *sim.Stats, keepLog bool) *sim.Outcome {
 					ssb := builder.NewSelectorSpecBuilder(basicnode.Prototype.Any)
 					var sel selector.Selector
 					selDesc := ""
+					selExplicit := true // until a spec says otherwise
 					if len(cl.sels) > 0 && t.Bool("x.reuse_selector") {
 						k := t.Choice(len(cl.sels), "x.which_selector")
-						sel, selDesc = cl.sels[k], cl.selDesc[k]+" (re-used)"
+						sel, selDesc, selExplicit = cl.sels[k], cl.selDesc[k]+" (re-used)", cl.selExpl[k]
 						st.Inc("probe.selector_reused")
 					}
 					gen.FieldHints = nil
@@ -904,6 +957,7 @@ func (S) RunTape(t *sim.Tape, st *sim.Stats, keepLog bool) *sim.Outcome {
 							sel = cs
 							if sv, e2 := model.FromNode(spec.Node()); e2 == nil {
 								selDesc = sv.String()
+								selExplicit = hasExplicitInterests(sv)
 							}
 						}
 					}
@@ -911,11 +965,31 @@ func (S) RunTape(t *sim.Tape, st *sim.Stats, keepLog bool) *sim.Outcome {
 						continue
 					}
 					if !withSubset && !strings.HasSuffix(selDesc, "(re-used)") && len(cl.sels) < 4 {
-						cl.sels, cl.selDesc = append(cl.sels, sel), append(cl.selDesc, selDesc)
+						cl.sels, cl.selDesc, cl.selExpl = append(cl.sels, sel), append(cl.selDesc, selDesc), append(cl.selExpl, selExplicit)
 					}
+					// across links the walks cross them (paths are transparent); with visit-once a link met
+					// again is not crossed, by the read-only walk and by the transform alike
+					linked9 := hasLinks(beforeRaw)
+					base9 := beforeRaw
+					cfg9 := w.cfg
+					if linked9 {
+						base9 = flatten(before)
+						st.Inc("probe.walk_transform_selector_across_links")
+						// Visit-once makes WHICH occurrence of a repeated link is crossed depend on the order of
+						// the walk. The read-only walk follows a selector's explicit interests (fields, index,
+						// range) in the selector's order, the transform follows the node's own order: only
+						// selectors without such clauses make the two walks comparable under visit-once.
+						if !selExplicit && t.Pct(60, "x.sel.once") {
+							cc := *w.cfg
+							cc.LinkVisitOnlyOnce = true
+							cfg9 = &cc
+							st.Inc("probe.walk_transform_selector_visit_once")
+						}
+					}
+					scalarsOnly9 := cfg9.LinkVisitOnlyOnce
 					var matched [][]string
 					wpan := safe(func() {
-						err = traversal.Progress{Cfg: w.cfg}.WalkMatching(cl.root, sel, func(p traversal.Progress, n datamodel.Node) error {
+						err = traversal.Progress{Cfg: cfg9}.WalkMatching(cl.root, sel, func(p traversal.Progress, n datamodel.Node) error {
 							var sg []string
 							for _, x := range p.Path.Segments() {
 								sg = append(sg, x.String())
@@ -932,35 +1006,43 @@ func (S) RunTape(t *sim.Tape, st *sim.Stats, keepLog bool) *sim.Outcome {
 					var called [][]string
 					var calledWith []*model.V
 					pan = safe(func() {
-						res, err = traversal.Progress{Cfg: w.cfg}.WalkTransforming(cl.root, sel, func(p traversal.Progress, n datamodel.Node) (datamodel.Node, error) {
+						res, err = traversal.Progress{Cfg: cfg9}.WalkTransforming(cl.root, sel, func(p traversal.Progress, n datamodel.Node) (datamodel.Node, error) {
 							s.Yield("callback")
 							var sg []string
 							for _, x := range p.Path.Segments() {
 								sg = append(sg, x.String())
 							}
-							called = append(called, sg)
 							av, _ := model.FromNode(n)
+							if scalarsOnly9 && (n.Kind() == datamodel.Kind_Map || n.Kind() == datamodel.Kind_List) {
+								// with visit-once the transform must go on below every match, as the read-only walk
+								// does, or the two walks would remember different links
+								return n, nil
+							}
+							called = append(called, sg)
 							calledWith = append(calledWith, av)
 							return basicnode.NewString("«T»"), nil
 						})
 					})
 					// whatever the selector: the callback is handed the node at its position, and the result is the
 					// input with exactly the positions the callback was called for replaced
-					want = beforeRaw
+					want = base9
 					for ci, m := range called {
-						if at := nodeAt(beforeRaw, m); at == nil || !model.Equal(at, calledWith[ci]) {
+						if at := nodeAt(base9, m); at == nil || ((!linked9 || !hasLinks(calledWith[ci])) && !model.Equal(at, calledWith[ci])) {
 							o.Fail("callback-saw-wrong-node", "walk-transform-selector", "%s: at %q the callback was handed %s, the node there is %s", desc, strings.Join(m, "/"), calledWith[ci], at)
 						}
 						want = replaceAt(want, m, marker)
 					}
 					if !withSubset && pan == "" && err == nil {
 						// without subset clauses the read-only matching walk of the same selector names the targeted positions
-						exp := beforeRaw
+						exp := base9
 						for _, m := range matched {
+							if at := nodeAt(base9, m); scalarsOnly9 && at != nil && (at.K == model.Map || at.K == model.List) && !redirectAt(before, m) {
+								continue // (a redirect block's root is a link node to the walk: a scalar, replaced like one)
+							}
 							exp = replaceAt(exp, m, marker)
 						}
 						if !model.Equal(exp, want) {
-							o.Fail("wrong-result", "walk-transform-selector", "%s: the transform's callback ran at %q, the matching walk of the same selector matches %q", desc, called, matched)
+							o.Fail("wrong-result", "walk-transform-selector", "%s: the transform's callback ran at %q, the matching walk of the same selector matches %q\n  from callbacks: %s\n  from matches:   %s (visit-once=%v, callback arguments %v)", desc, called, matched, show(want), show(exp), scalarsOnly9, calledWith)
 						}
 					} else if withSubset {
 						st.Inc("probe.walk_transform_subset_selector")
@@ -1167,7 +1249,7 @@ func (S) RunTape(t *sim.Tape, st *sim.Stats, keepLog bool) *sim.Outcome {
 					o.Fail("result-unreadable", sig, "%s: the result cannot be read back: err=%v panic=%s", desc, gerr, pan)
 					continue
 				}
-				if kind == 10 {
+				if kind == 10 || (kind == 9 && hasLinks(beforeRaw)) {
 					if !eqExpanded(flatten(got), want) {
 						o.Fail("wrong-result", sig, "%s on %s\n  gave (links replaced by their content): %s\n  want: %s", desc, beforeRaw, show(flatten(got)), show(want))
 						continue
